@@ -331,7 +331,7 @@ def check_C18(tier, seed):
         runs += [("chunks", True, ()), ("mutations", False, ("-fwide-types",)), ("ioc", False, ("-findirect-choice", "-fcompound-names")),
                  ("life", False, ("-fwide-types",))]
     for planset, exact, flags in runs:
-        codec_family("C18", tier, seed, planset, san="asan", modules=(9,) if flags else (9, 10), exact=exact, flags=flags, res=res, finish_it=False,
+        codec_family("C18", tier, seed, planset, san="asan", modules=(9,) if flags else ((9, 10, 11) if planset in ("rt", "variants") else (9, 10)), exact=exact, flags=flags, res=res, finish_it=False,
                      valcap=(3 if quick else 8) if planset in ("mutations", "life") else (4 if quick and planset in ("split", "ioc") else 0),
                      leafcap=3 if quick and planset == "mutations" else 0,
                      maxfail=6 if quick else 16, dense=not quick and planset == "mutations")
